@@ -107,6 +107,20 @@ def free_port():
     return p
 
 
+def _listening(port):
+    """Is some socket of this machine listening on the TCP port (read from /proc, so that no stray connection is made)?"""
+    want = "%04X" % port
+    for f in ("/proc/net/tcp", "/proc/net/tcp6"):
+        try:
+            for line in open(f).readlines()[1:]:
+                c = line.split()
+                if c[3] == "0A" and c[1].rsplit(":", 1)[1] == want:
+                    return True
+        except (OSError, IndexError):
+            pass
+    return False
+
+
 def _server_main(conf, logp, slugs_file, ready):
     # own session / process group (so that the whole family - server, policy monitor, manager - can be removed at once) and
     # no share in the check's standard streams (a process left behind must never keep the check's output pipe open)
@@ -205,6 +219,13 @@ class System(object):
         if not ready.wait(timeout):
             self.stop()
             raise common.MachineryFailure("the KmipServer child did not come up: %s" % self.log_tail())
+        # ready is set after KmipServer.start(); the socket starts listening in serve(), a moment later
+        t0 = time.time()
+        while not _listening(self.port):
+            if time.time() - t0 > timeout or not self.proc.is_alive():
+                self.stop()
+                raise common.MachineryFailure("the KmipServer child does not listen: %s" % self.log_tail())
+            time.sleep(0.02)
         return self
 
     def log_tail(self, n=12):
